@@ -18,6 +18,7 @@ import (
 	"sync"
 
 	"verifharness/engines/c17"
+	"verifharness/engines/c19"
 	"verifharness/gen"
 )
 
@@ -294,13 +295,59 @@ func Run(c *gen.Ctx) error {
 	if err := meta.AddCaseFile(cf, descr); err != nil {
 		return err
 	}
+	// the resolver files of fresh projects against the declaration-level model of a regeneration (Model.Regen):
+	// the second run must be what the model's run over the first run's output is
+	rcf := &gen.CaseFile{Dir: c.OutDir, Prop: "C18", Kind: "regen", Requires: []string{"Base.Prelude", "Model.Rewrite", "Model.Regen", "Corr.Corr_C19"}, Type: "c19_case",
+		Checks: []gen.Check{{Label: "corr", Fn: "c19_corr"}, {Label: "mon", Fn: "c19_montol"}, {Label: "monmodel", Fn: "c19_monmodel"}}, Shard: 40}
+	var rdescr []any
+	nFresh := 4
+	if c.Thorough() {
+		nFresh = 40
+	}
+	fr := r.Fork(5)
+	type freshRes struct {
+		coq    string
+		descr  any
+		direct []gen.DirectFinding
+		err    error
+	}
+	fres := make([]freshRes, nFresh)
+	var fwg sync.WaitGroup
+	for i := 0; i < nFresh; i++ {
+		seed := fr.U64()
+		layout := []string{"single-file", "follow-schema"}[i%2]
+		fwg.Add(1)
+		go func(i int) {
+			defer fwg.Done()
+			sem <- struct{}{}
+			defer func() { <-sem }()
+			var f freshRes
+			f.coq, f.descr, f.direct, f.err = c19.FreshRegeneration(root, 1000+i, seed, layout)
+			fres[i] = f
+		}(i)
+	}
+	fwg.Wait()
+	for _, f := range fres {
+		if f.err != nil {
+			return f.err
+		}
+		meta.Direct = append(meta.Direct, f.direct...)
+		if f.coq != "" {
+			rcf.Add(f.coq)
+			rdescr = append(rdescr, f.descr)
+		}
+	}
+	if err := meta.AddCaseFile(rcf, rdescr); err != nil {
+		return err
+	}
+	meta.Distribution["fresh_regenerations_against_the_model"] = rcf.Len()
 	meta.Distribution["projects"] = len(projects)
 	meta.Distribution["generator_runs"] = runs
 	meta.Distribution["emitted_lists_checked"] = cf.Len()
 	meta.Programs = len(projects)
 	meta.Evaluations = runs
 	meta.DistinctNontrivial = len(projects)
-	meta.Rule = "projects: one with two schema files of the same base name in different directories (follow-schema layout, names colliding after normalisation) + random projects from the C17 generator (schemas with colliding names x random options/layouts). Per project: generation in separate processes (fresh map seeds) on a clean tree from the project root with GOMAXPROCS=1; on an independent clean copy started from inside graph/ with GOMAXPROCS=16; then 2 (quick) or 4 (thorough) more times over the tree holding the previous output with GOMAXPROCS 2/16/1/4. SHA-256 of every written .go file must be identical across all runs. The emitted order of object marshalers and input unmarshalers per executor file is extracted and must be the sorted order."
+	meta.Rule = "projects: one with two schema files of the same base name in different directories (follow-schema layout, names colliding after normalisation) + random projects from the C17 generator (schemas with colliding names x random options/layouts). Per project: generation in separate processes (fresh map seeds) on a clean tree from the project root with GOMAXPROCS=1; on an independent clean copy started from inside graph/ with GOMAXPROCS=16; then 2 (quick) or 4 (thorough) more times over the tree holding the previous output with GOMAXPROCS 2/16/1/4. SHA-256 of every written .go file must be identical across all runs. The emitted order of object marshalers and input unmarshalers per executor file is extracted and must be the sorted order. Fresh projects of the C19 generator (both resolver layouts) are regenerated with nothing edited: byte-identical files, and the resolver files of the second run are compared declaration by declaration with the model's run (Model.Regen) over the first run's output."
 	if len(descr) > 0 {
 		meta.Samples = append(meta.Samples, descr[0])
 	}
